@@ -107,7 +107,17 @@ def loop_paths(body, lm, limit=5000):
                 res.append(("back", path + [h]))
                 continue
             if s not in lm.blocks:
-                res.append(("exit", path + [s]))
+                # a `break` arm: blocks that belong to this exit only (they do not
+                # post-dominate the header) are part of the iteration; the first block
+                # after them is the end point of the path
+                tail = []
+                cur = s
+                while (not cfg.postdominates(cur, h)) and len(cfg.succ[cur]) == 1 \
+                        and len([p for p in cfg.pred[cur] if p in cfg.reach]) == 1 \
+                        and cur not in path and cur not in tail:
+                    tail.append(cur)
+                    cur = cfg.succ[cur][0]
+                res.append(("exit", path + tail + [cur]))
                 continue
             if s in path:
                 continue  # inner loop back edge: cut
@@ -163,6 +173,8 @@ def loop_system(prog, body, lm, state_pks, roots):
     for kind, path in loop_paths(body, lm):
         pv = PathView(prog, body, path)
         facts = pv.facts()
+        if contradictory(facts):
+            continue
         inner = PathView(prog, body, path[:-1]) if len(path) > 1 else pv
         events = inner.events(roots)
         nxt = {}
@@ -204,3 +216,24 @@ def entry_value(prog, body, lm, pk):
     if len(vals) == 1:
         return next(iter(vals))
     return None
+
+
+def contradictory(facts):
+    """Syntactically infeasible path condition: x < x, x != x, or an atom with both polarities."""
+    seen = {}
+    for atom, pol in facts:
+        if atom[0] == "cmp":
+            op, a, b = atom[1], atom[2], atom[3]
+            if a == b:
+                if op == "Lt" and pol:
+                    return True
+                if op in ("Le", "Eq") and not pol:
+                    return True
+        if atom in seen and seen[atom] != pol:
+            return True
+        seen[atom] = pol
+        if atom[0] == "variant":
+            for (a2, p2) in list(seen.items()):
+                if a2[0] == "variant" and a2[1] == atom[1] and a2[2] != atom[2] and p2 and pol:
+                    return True
+    return False
